@@ -1,9 +1,9 @@
 package main
 
 import (
-	"sort"
 	"fmt"
 	"go/types"
+	"sort"
 	"strings"
 
 	"golang.org/x/tools/go/ssa"
@@ -223,7 +223,9 @@ func (e *Engine) verifyFuncOpts(key string, o RunOpts) (fr *FuncResult) {
 	if ct != nil {
 		env := x.specEnv(pre, &st, nil, 0)
 		for _, rq := range ct.Requires {
+			x.qRegister = true
 			t := x.evalBool(env, rq.Expr)
+			x.qRegister = false
 			vc.S.fact("true", t)
 			for _, cj := range conjuncts(t) {
 				if strings.HasPrefix(cj, "(not (= ") && strings.HasSuffix(cj, " 0))") {
@@ -328,6 +330,24 @@ func (e *Engine) verifyFuncOpts(key string, o RunOpts) (fr *FuncResult) {
 		for k, sa := range ct.Asserts {
 			if sa.Cl.Text != "false" && !sa.Optional && x.assertHits[k] == 0 {
 				vc.oblige(fmt.Sprintf("%s#site-unmatched:%s#%d.%d", key, sa.Callee, sa.Ord, k+1), "site", "true", "false", fmt.Sprintf("%s:%d", shortPath(ct.File), sa.Cl.Line))
+			}
+		}
+		// `some call A | B`: the policy assertions on A and B are not all vacuous -- at least one
+		// such call exists (the code may use either, e.g. os.OpenFile or FileStore.OpenFile)
+		for k, alt := range ct.Raw["some"] {
+			alt = strings.TrimSpace(strings.TrimPrefix(strings.TrimSpace(alt), "call"))
+			found := false
+			if x.trace != nil {
+				for _, c := range x.trace.calls {
+					for _, a := range strings.Split(alt, "|") {
+						if c.Depth == 0 && calleeMatch(strings.TrimSpace(a), c.Callee) {
+							found = true
+						}
+					}
+				}
+			}
+			if !found {
+				vc.oblige(fmt.Sprintf("%s#site-unmatched:some(%s).%d", key, alt, k+1), "site", "true", "false", shortPath(ct.File))
 			}
 		}
 		// the exit must be reachable under the hypotheses (vacuity guard)
